@@ -32,6 +32,28 @@ Check (C08_answered_at_most_once :
   forall id, In id (ans_ids (concat (run (init ka T n0) tr))) -> n0 <= id).
 Check (C08_answer_consumes :
   forall s dt e, pend_inv s -> ans_ok s (fst (step s dt e)) (snd (step s dt e))).
+Check (C08_open_in_flight :
+  forall s dt e c id,
+  pend_inv s -> In (OCmd c id) (snd (step s dt e)) ->
+  exists p, pfind id (s_pend (fst (step s dt e))) = Some (p, c)).
+Check (C08_in_flight_until_answered_or_closed :
+  forall s dt e id k,
+  pfind id (s_pend s) = Some k ->
+  pfind id (s_pend (fst (step s dt e))) = Some k \/ In id (ans_ids (snd (step s dt e))) \/
+  exists p, e = EClosed p (snd k)).
+Check (C08_open_resolution :
+  forall tr s c id,
+  pend_inv s -> In (OCmd c id) (concat (run s tr)) ->
+  (exists p, pfind id (s_pend (final s tr)) = Some (p, c)) \/
+  In id (ans_ids (concat (run s tr))) \/
+  exists dt p, In (dt, EClosed p c) tr).
+Check (C08_open_answered :
+  forall tr ka T n0 c id,
+  In (OCmd c id) (concat (run (init ka T n0) tr)) ->
+  pfind id (s_pend (final (init ka T n0) tr)) = None ->
+  (count_occ N.eq_dec (ans_ids (concat (run (init ka T n0) tr))) id <= 1)%nat /\
+  (count_occ N.eq_dec (ans_ids (concat (run (init ka T n0) tr))) id = 1%nat \/
+   exists dt p, In (dt, EClosed p c) tr)).
 Check (C08_needs_two_per_peer :
   exists tr q,
   feasible 3 env0 (init true 1000 0) tr = true /\
